@@ -587,3 +587,44 @@ def r8(ctx):
 def r9(ctx):
     from .c12 import r2 as capability_tables
     capability_tables(ctx)
+
+
+_ID_ATTRS = ("apduInvokeID", "invokeID")
+
+
+def _is_invoke_id(e):
+    return (isinstance(e, ast.Attribute) and e.attr in _ID_ATTRS) or (isinstance(e, ast.Name) and e.id in ("invokeID", "invoke_id"))
+
+
+@rule("C10.R10", "invoke ID 0 is an invoke ID: no decision of the transaction layer or the application comes out differently for 0 than for another ID (a request numbered 0 is answered like any other)",
+      floor=4, engines="E5 finite-domain evaluation of every test that reads an invoke ID")
+def r10(ctx):
+    prog = ctx.prog
+    n_tests = 0
+    for mname in ("appservice", "app", "apdu", "iocb"):
+        m = prog.module(mname)
+        for c in list(m.classes.values()) + [None]:
+            fns = list(c.methods.values()) if c is not None else list(m.functions.values())
+            ev = Evaluator(prog, m, c) if c is not None else Evaluator(prog, m)
+            for fn in fns:
+                label = "%s.%s" % (c.name, fn.name) if c is not None else fn.name
+                for n in ast.walk(fn):
+                    # (a) a test: evaluated with the ID 0 and with the ID 3, everything else unknown
+                    t = n.test if isinstance(n, (ast.If, ast.While, ast.IfExp, ast.Assert)) else None
+                    if t is not None:
+                        keys = sorted({norm(x) for x in ast.walk(t) if _is_invoke_id(x)})
+                        for k in keys:
+                            n_tests += 1
+                            try:
+                                r0, r3 = ev.eval3(t, {k: 0}), ev.eval3(t, {k: 3})
+                            except Exception:
+                                r0 = r3 = None
+                            ctx.check("%s:invoke-id-0@%s" % (label, norm(t)[:60]), r0 == r3, where(m, n),
+                                      "the test %s comes out %s for invoke ID 0 but %s for 3: a request or reply numbered 0 is treated as having no ID" % (norm(t)[:80], r0, r3))
+                    # (b) an ID used for its truth value in a value position: `x = id or ...`, `id and ...`, `not id`
+                    if isinstance(n, ast.BoolOp) and any(_is_invoke_id(v) for v in n.values[:-1]):
+                        n_tests += 1
+                        ctx.check("%s:invoke-id-0@%s" % (label, norm(n)[:60]), False, where(m, n), "the expression %s replaces / skips the invoke ID 0" % norm(n)[:80])
+    ctx.count("invoke-id-tests", n_tests)
+    if n_tests < 4:
+        raise ShapeError("only %d tests reading an invoke ID found" % n_tests)
